@@ -3,7 +3,7 @@
 import json, subprocess
 
 HOOK_COMMITS = subprocess.run(
-    ["git", "-C", "/repo", "log", "--format=%h %s", "--grep=^verif hooks"],
+    ["git", "-C", "/repo", "log", "--format=%h %s", "--grep=^verif hook"],
     capture_output=True, text=True).stdout.strip().splitlines()
 
 CHECKS = {
